@@ -47,6 +47,13 @@ def special_programs():
         ssig = "(" + "y" * k + ")"
         out.append(hdr + "y7 V%s ( %s ) ; y9" % (ssig, " ".join("y%d" % (i % 256) for i in range(k))))
         out.append(hdr + "g" + "79" * (k + 2) + " s6162")
+    # very large header fields: the fields after a 33 KB / 70 KB / 300 KB object path sit beyond 2^15 / 2^16 bytes in the header
+    for n in (33000, 70000, 300000):
+        big = "2f" + "61" * n
+        for setters in ("path=%s,iface=612e62,member=53,dest=612e63" % big, "iface=612e62,member=53,path=%s,dest=612e63,sender=3a312e35" % big,
+                        "path=2f61,iface=612e62,member=53,path=%s,iface=782e79" % big):
+            out.append("build 1 0 1 %s y1 s6162 Ai i1 i2 ]" % setters)
+            out.append("build 1 0 1 %s" % setters)
     out.append(hdr + "A(yx) ( y1 x2 ) ( y3 x4 ) ]")
     out.append(hdr + " ".join("i%d" % i for i in range(200)))
     for k in (1, 8, 31, 32):
@@ -57,6 +64,11 @@ def special_programs():
 
 def run(ctx):
     rep, tier, info = ctx["rep"], ctx["tier"], ctx["info"]
+    try:        # the extracted model recurses over byte lists: 300 KB header fields need a deep stack (inherited by the child processes)
+        import resource
+        resource.setrlimit(resource.RLIMIT_STACK, (resource.RLIM_INFINITY, resource.RLIM_INFINITY))
+    except (ImportError, ValueError, OSError):
+        pass
     rnd = random.Random(ctx["seed"])
     progs = special_programs() + [wiregen.rand_program(rnd, max_depth=rnd.choice((1, 2, 3, 3, 5))) for _ in range(1500 if tier == "quick" else 60000)]
     bs_cov = {}
